@@ -203,6 +203,9 @@ func c11IsSetVar(v string) bool {
 	if _, ok := c11IntVars[v]; ok {
 		return true
 	}
+	if c11IsTypedVar(v) {
+		return true
+	}
 	_, ok := c11StrVars[v]
 	return ok
 }
